@@ -1258,6 +1258,7 @@ def risk(stmt, ds=None):
                         lost.add(rel.full(ds))
                     elif rel.kind == "derived":
                         lost |= rel.query.reads(ds)
+            out.setdefault("where.in_subquery_comma_join", set())  # the mechanism is present even when only CTE references are lost
             add("where.in_subquery_comma_join", lost)
         # ((select ...) union all (select ...)) as a predicate sub-query: only the first branch is analysed
         if pr.query is not None and isinstance(pr.query, SetOp) and pr.query.paren:
